@@ -5,7 +5,7 @@
 # a copy of /repo's working tree, /root/mutest/verif a copy of /verif whose harness depends on it.
 set -e
 P=$(readlink -f "$1"); shift
-M=/root/mutest
+M=${MUTEST:-/root/mutest}
 mkdir -p $M
 rsync -a --delete --exclude target /repo/ $M/repo/
 rsync -a --delete --exclude work --exclude .git --exclude evidence/replays --exclude harness/target /verif/ $M/verif/ 2>/dev/null || true
